@@ -93,14 +93,14 @@ func (p *TermPool) mk(op, name string, sort *Sort, iv *big.Int, args ...*Term) *
 }
 
 func smtName(s string) string {
-	ok := true
+	ok := len(s) > 0 && !(s[0] >= '0' && s[0] <= '9') && s[0] != '@' && s[0] != '.'
 	for _, c := range s {
-		if !(c >= 'a' && c <= 'z' || c >= 'A' && c <= 'Z' || c >= '0' && c <= '9' || c == '_' || c == '.' || c == '$' || c == '#' || c == '!' || c == '@' || c == '-' || c == '/' || c == '*' || c == '[' || c == ']' || c == ':') {
+		if !(c >= 'a' && c <= 'z' || c >= 'A' && c <= 'Z' || c >= '0' && c <= '9' || c == '_' || c == '.' || c == '$' || c == '!' || c == '@' || c == '-') {
 			ok = false
 			break
 		}
 	}
-	if ok && len(s) > 0 && !(s[0] >= '0' && s[0] <= '9') && !strings.ContainsAny(s, "[]:*/") {
+	if ok {
 		return s
 	}
 	return "|" + strings.ReplaceAll(strings.ReplaceAll(s, "|", "!"), "\\", "!") + "|"
